@@ -27,6 +27,8 @@ CONSTANTS Replicas,      \* actor numbers, e.g. {1, 2}
           WithList,      \* TRUE: the base document holds a list at key "l"
           WithInserts,       \* TRUE: list inserts are part of the programs
           WithRollback,      \* TRUE: programs contain rolled-back (possibly isolated) transactions
+          WithText,          \* TRUE: the base document holds a text object "a e-acute" at key "t" (instead of the list)
+          Enc,               \* text encoding of the documents: "cp", "u8" or "u16"
           WithHist           \* TRUE: finished behaviours also carry the expected views at every
                              \* set of historical heads (all antichains) of the acting replica
 
@@ -41,9 +43,16 @@ MkOp(id, obj, ismap, key, elem, insert, act, val, pred) ==
    act |-> act, val |-> val, pred |-> pred, mname |-> "", expand |-> FALSE]
 
 LIST == <<1, 1>>
+TEXT == <<1, 1>>
+TextV == [k |-> "obj", s |-> "text", n |-> 0, toks |-> <<>>]
+StrV(tok) == [k |-> "str", s |-> IF tok = "grin" THEN "\\u{1f600}" ELSE IF tok = "eacute" THEN "\\u{e9}" ELSE tok, n |-> 0, toks |-> <<tok>>]
 (* base document, made by actor 1 in one transaction and merged everywhere *)
 BaseOps ==
-  IF WithList THEN
+  IF WithText THEN
+    {MkOp(<<1, 1>>, ROOT, TRUE, "t", HEAD, FALSE, "make", TextV, {}),
+     MkOp(<<2, 1>>, TEXT, FALSE, "", HEAD, TRUE, "set", StrV("a"), {}),
+     MkOp(<<3, 1>>, TEXT, FALSE, "", <<2, 1>>, TRUE, "set", StrV("eacute"), {})}
+  ELSE IF WithList THEN
     {MkOp(<<1, 1>>, ROOT, TRUE, "l", HEAD, FALSE, "make", ListV, {}),
      MkOp(<<2, 1>>, LIST, FALSE, "", HEAD, TRUE, "set", CtrV(1), {}),
      MkOp(<<3, 1>>, LIST, FALSE, "", <<2, 1>>, TRUE, "set", IntV(7), {})}
@@ -67,7 +76,7 @@ OpsAt(r, H) == {o \in known[r] : \E c \in AncC(H) : o.id \in chgs[c].ops}
 MaxCtr(O) == IF O = {} THEN 0 ELSE Max({o.id[1] : o \in O})
 NextId(r) == <<MaxCtr(known[r]) + 1, r>>
 
-View(r) == Interp(known[r], "cp")
+View(r) == Interp(known[r], Enc)
 
 (* ---- local op generation --------------------------------------------- *)
 (* R: the visible ops of the target register (possibly empty) *)
@@ -102,7 +111,7 @@ Record(r, call, res, newops) ==
              ELSE LET o == CHOOSE x \in newops : TRUE IN
                   (o.id :> [ops |-> {o.id}, deps |-> HeadsC(Have(r))]) @@ chgs
   /\ hist' = Append(hist, [r |-> r, call |-> call, res |-> res,
-                           exp |-> Interp(known[r] \cup newops, "cp")])
+                           exp |-> Interp(known[r] \cup newops, Enc)])
 
 MapCall(r) ==
   \E k \in Keys : \E kind \in {"put", "del", "inc"} : \E v \in PutVals :
@@ -135,12 +144,35 @@ ListCall(r) ==
                  op == MkOp(NextId(r), LIST, FALSE, "", ref, TRUE, "set", v, {})
              IN  Record(r, [fn |-> "insert", obj |-> LIST, idx |-> i, val |-> v], "ok", {op})
 
+(* Text (C24): single characters are overwritten with put(text, i, "c") -- which makes conflicted *)
+(* characters whose values have different widths -- deleted, and inserted with splice_text; every  *)
+(* index is the offset of the element in units of Enc.                                              *)
+TextCall(r) ==
+  /\ WithText
+  /\ TEXT \in Reachable(known[r])
+  /\ LET es == VisibleElems(known[r], TEXT)
+         unit(i) == SumSeq([j \in 1..(i - 1) |-> ElemWidth(known[r], TEXT, es[j], Enc)])
+     IN
+     \/ \E i \in 1..Len(es) : \E kind \in {"put", "del"} : \E v \in {StrV("x"), StrV("grin")} :
+          LET R == ElemReg(known[r], TEXT, es[i])
+              g == GenUpdate(r, R, TEXT, FALSE, "", es[i], kind, v)
+              call == IF kind = "put" THEN [fn |-> "put", obj |-> TEXT, idx |-> unit(i), val |-> v]
+                      ELSE [fn |-> "delete", obj |-> TEXT, idx |-> unit(i)]
+          IN  /\ (kind # "put" => v = StrV("x"))
+              /\ Record(r, call, g.res, g.ops)
+     \/ \E i \in 0..Len(es) : \E tok \in {"b", "grin"} :
+          /\ WithInserts /\ Len(es) < 4
+          /\ LET ref == IF i = 0 THEN HEAD ELSE es[i]
+                 op == MkOp(NextId(r), TEXT, FALSE, "", ref, TRUE, "set", StrV(tok), {})
+             IN  Record(r, [fn |-> "splice_text", obj |-> TEXT, idx |-> unit(i + 1), del |-> 0, toks |-> <<tok>>], "ok", {op})
+
 Merge(r) ==
   \E s \in Replicas \ {r} :
     /\ ~(known[s] \subseteq known[r])
     /\ known' = [known EXCEPT ![r] = @ \cup known[s]]
     /\ UNCHANGED chgs
-    /\ hist' = Append(hist, [r |-> r, merge |-> s, res |-> "ok", exp |-> Interp(known[r] \cup known[s], "cp")])
+    /\ hist' = Append(hist, [r |-> r, merge |-> s, res |-> "ok", got |-> {o.id : o \in known[s] \ known[r]},
+                             exp |-> Interp(known[r] \cup known[s], Enc)])
 
 (* C28: a transaction of one call, opened on the current state or isolated at an antichain H of  *)
 (* the replica's changes, and rolled back: the replica's op set -- hence everything it shows --  *)
@@ -156,7 +188,7 @@ RolledBack(r) ==
                                 call |-> IF kind = "put" THEN [fn |-> "put", obj |-> ROOT, key |-> k, val |-> v]
                                          ELSE IF kind = "del" THEN [fn |-> "delete", obj |-> ROOT, key |-> k]
                                          ELSE [fn |-> "increment", obj |-> ROOT, key |-> k, by |-> 2],
-                                res |-> "any", exp |-> Interp(known[r], "cp")])
+                                res |-> "any", exp |-> Interp(known[r], Enc)])
        /\ UNCHANGED <<known, chgs>>
 
 Init ==
@@ -164,7 +196,7 @@ Init ==
   /\ hist = <<>>
   /\ chgs = IF BaseOps = {} THEN <<>> ELSE (<<1, 1>> :> [ops |-> {o.id : o \in BaseOps}, deps |-> {}])
 
-Next == Len(hist) < Depth /\ \E r \in Replicas : MapCall(r) \/ ListCall(r) \/ Merge(r) \/ RolledBack(r)
+Next == Len(hist) < Depth /\ \E r \in Replicas : MapCall(r) \/ ListCall(r) \/ TextCall(r) \/ Merge(r) \/ RolledBack(r)
 
 Spec == Init /\ [][Next]_vars
 
@@ -182,7 +214,7 @@ RegAfter(view, call) ==   \* the register the call addressed, in a view
 LocalEffect ==
   hist # <<>> =>
     LET h == hist[Len(hist)] IN
-    ("call" \in DOMAIN h /\ h.res = "ok" /\ "rolledback" \notin DOMAIN h) =>
+    ("call" \in DOMAIN h /\ h.res = "ok" /\ "rolledback" \notin DOMAIN h /\ ~WithText) =>
       LET after == RegAfter(h.exp, h.call) IN
       CASE h.call.fn \in {"put", "insert"} ->
              /\ Cardinality(after) = 1
@@ -197,7 +229,7 @@ Convergence ==
 
 (* C07 at design level and as replay data: reads at historical heads H are the interpretation
    of the ops of H's ancestors. *)
-HistReads(r) == {[heads |-> H, exp |-> Interp(OpsAt(r, H), "cp")] : H \in AntichainsC(Have(r))}
+HistReads(r) == {[heads |-> H, exp |-> Interp(OpsAt(r, H), Enc)] : H \in AntichainsC(Have(r))}
 Out == IF WithHist /\ hist # <<>>
        THEN Append(hist, [r |-> hist[Len(hist)].r, hreads |-> HistReads(hist[Len(hist)].r)])
        ELSE hist
@@ -210,6 +242,11 @@ LastStep == IF hist = <<>> THEN <<>> ELSE <<[x \in DOMAIN hist[Len(hist)] \ {"ex
 TransitionView == <<known, LastStep>>
 (* state coverage: one (shortest) history per distinct vector of replica op sets; used for the
    historical-read replays, whose expected results depend on the state only *)
+(* delivery-path coverage: states are also distinguished by WHICH ops each merge delivered to each  *)
+(* replica, in order -- effects that depend on how a set of changes was split over deliveries      *)
+(* (e.g. a conflict that exists only between two merges) are not identified with the one-shot path *)
+MergePath(r) == LET ms == SelectSeq(hist, LAMBDA h : "merge" \in DOMAIN h /\ h.r = r) IN [i \in DOMAIN ms |-> ms[i].got]
+PathView == <<known, LastStep, [r \in Replicas |-> MergePath(r)]>>
 StateView == <<known, IF hist = <<>> THEN 0 ELSE hist[Len(hist)].r>>
 EmitAll == hist # <<>> => PrintT(<<"REPLAY", ToJson(Out)>>)
 =============================================================================
